@@ -1,3 +1,6 @@
 import AscentVerif.Model.Sexp
 import AscentVerif.Model.Aggregators
 import AscentVerif.Props.C17
+import AscentVerif.Props.C16Basic
+import AscentVerif.Props.C16Struct
+import AscentVerif.Model.Index
